@@ -1,9 +1,11 @@
 import HexProofs.Framework.Gen.RSI
 import HexProofs.Framework.Gen.ATR
 import HexProofs.Framework.Gen.KC
+import HexProofs.Framework.Gen.BBands
 /-
 All trees with a proved row-major spec, under one predicate: the leaf kinds (`Covered`), the
-data-series kinds VWAP, STDEV, RSI, ATR (prior TR helper) and KC (prior ATR tree + EMA).
+data-series kinds VWAP, STDEV, RSI, ATR (prior TR helper), KC (prior ATR tree + EMA), STDEVTHRES (prior STDEV data helper) and
+BBANDS (prior STDEV data helper + SMA).
 -/
 namespace Hex
 set_option linter.unusedSectionVars false
@@ -18,12 +20,18 @@ inductive CoveredTree (name : String) : Kind F → Prop
   | atr (p : Int) : 1 ≤ p → AtrNames name → CoveredTree name (.atr p)
   | kc (p : Int) (input : String) (m : Num F) : 1 ≤ p → KcNames name → AttrInput input →
       CoveredTree name (.kc p input m)
+  | stdevthres (p : Int) (input : String) (m : Num F) : 0 ≤ p → ThresNames name → AttrInput input →
+      CoveredTree name (.stdevthres p input m)
+  | bbands (p : Int) (input : String) : 1 ≤ p → BbNames name → AttrInput input →
+      CoveredTree name (.bbands p input)
 
 /-- kinds for which `calculate_index(i)` is exactly one row step at every index (for a tree with
 a sub-indicator it is not: at index 0 the sub falls back to a full `calculate()`) -/
 def indexStepKind : Kind F → Bool
   | .atr _ => false
   | .kc _ _ _ => false
+  | .stdevthres _ _ _ => false
+  | .bbands _ _ => false
   | _ => true
 
 theorem CoveredTree.spec {name : String} {k : Kind F} (h : CoveredTree name k) (round : Nat) :
@@ -42,6 +50,10 @@ theorem CoveredTree.spec {name : String} {k : Kind F} (h : CoveredTree name k) (
     exact ⟨atrTree name round p hp hn, fun h => by cases h⟩
   | kc p input m hp hn hin =>
     exact ⟨kcTree name round p input m hp hn hin, fun h => by cases h⟩
+  | stdevthres p input m hp hn hin =>
+    exact ⟨thresTree name round p input m hp hn hin, fun h => by cases h⟩
+  | bbands p input hp hn hin =>
+    exact ⟨bbTree name round p input hp hn hin, fun h => by cases h⟩
 
 /-- the manager spec of a configuration: base timeframe, timeframe, timeframe + fill -/
 def mgrSpecOf (F : Type) [PyF F] (tf : Option Int) (htf : ∀ t, tf = some t → 0 < t) (fill : Bool) : MgrSpec F :=
